@@ -4,6 +4,7 @@ package harness
 // transparency), C16 (results are JSON data).
 
 import (
+	"strconv"
 	"encoding/json"
 	"fmt"
 	"reflect"
@@ -131,6 +132,9 @@ func predNoMutate(c Case) (r Result) {
 // unsortedDoc: documents whose arrays are visibly out of order for common keys.
 func genUnsortedDoc(t *rapid.T) interface{} {
 	n := rapid.IntRange(2, 7).Draw(t, "n")
+	if uni(t, 4, "bigPeople") == 0 {
+		n = bigSize(t, "peopleN")
+	}
 	people := make([]interface{}, n)
 	for i := range people {
 		m := map[string]interface{}{
@@ -149,6 +153,14 @@ func genUnsortedDoc(t *rapid.T) interface{} {
 	}
 	nums := []interface{}{3.0, 1.0, 2.0, 1.0}
 	strs := []interface{}{"c", "a", "b"}
+	if uni(t, 4, "bigNums") == 0 {
+		m := bigSize(t, "numsN")
+		nums, strs = nil, nil
+		for i := 0; i < m; i++ {
+			nums = append(nums, float64((m-i)*3%17))
+			strs = append(strs, []string{"c", "a", "b", "é"}[i%4]+strconv.Itoa((m-i)%7))
+		}
+	}
 	// sometimes a wrong-typed element at the end: the element-typed array checks
 	// (array[number], array[string]) then fail on this document only
 	switch rapid.IntRange(0, 5).Draw(t, "poisonArrays") {
